@@ -277,8 +277,10 @@ func budgetCheck(r spg.CharRecipe, ref *refLeaf, rejected [][]uint32) error {
 	if o.Panic != nil {
 		return fmt.Errorf("panic on the last permitted attempt: %v", o.Panic)
 	}
-	if o.Pw == nil || o.Pw.String() != ref.Out {
-		return fmt.Errorf("%d attempts are permitted; after %d rejected ones a valid attempt (%q) was not returned (err=%v)", spg.MaxTrials, spg.MaxTrials-1, ref.Out, o.Err)
+	// (which string those choices give on the last attempt is the
+	// implementation's business - attempts need not map draws alike)
+	if o.Pw == nil || len(o.S.Draws) != len(ch) {
+		return fmt.Errorf("%d attempts are permitted; after %d rejected ones the choices of an accepted attempt (%q on a fresh start) did not yield a password after exactly their draws (password %v, err=%v, %d draws, %d expected)", spg.MaxTrials, spg.MaxTrials-1, ref.Out, o.Pw, o.Err, len(o.S.Draws), len(ch))
 	}
 	return nil
 }
